@@ -164,3 +164,16 @@ def shutdown_then_command(rng, ident, delays=0):
         s.append("sleep/%d" % rng.below(3))
     s += ["settle", "releasedial", "longsettle/%d" % (delays + 120) if delays else "settle", "awaitall", "settle"]
     return " ".join(kv) + " script=" + ";".join(s)
+
+
+def shutdown_during_backoff(rng, ident):
+    """a sequence whose attempts fail sleeps out a long retry backoff between them; Shutdown arrives during that sleep (after
+    the k-th failure): the sequence must end and release every waiter within bounded time, not after the backoff"""
+    k = 1 + rng.below(2)
+    kv = ["conn", ident, "mode=conc", "lazy=1", "backoff=%d" % rng.choice([20000, 60000, 3600000]),
+          "dials=%s" % rng.choice(["fail,fail,fail,ok", "fail,fail,fail,fail"]), "conns=ok,ok"]
+    s = ["cmd/1/ok/0/nowait"]
+    if rng.chance(2, 3):
+        s.append("force/2/nowait")
+    s += ["waitev/onconnecterror/%d" % (1 if k == 1 else 1), "sleep/%d" % rng.choice([2, 10, 30]), "shutdown", "awaitall", "settle"]
+    return " ".join(kv) + " script=" + ";".join(s)
